@@ -41,6 +41,7 @@ LAZY = {'forbidden-exec', 'candidate-started-early'}
 LEFT = {'leftover-tasks', 'late-activity', 'unbounded-drain', 'cancel-hang', 'cancel-wrong-exception'}
 
 GEN = ['plain', 'switch', 'oneof', 'rec', 'mix']
+COMPOSED = ['oneofx', 'switchx', 'recx']
 NEED_KIND = {'C09': 'switch', 'C10': 'oneof', 'C11': 'rec'}
 
 
@@ -56,7 +57,7 @@ def suites(prop: str, tier: str) -> t.List[Suite]:
                   symptoms=sym, plans='ok', max_nodes=8 if q else 9, require_tag='node-requested-from-two-scopes', limit=30000),
             Suite('shared-gated-start', ['corpus', 'switch', 'oneof'], ['outcome', 'varies'], 0, ['async'], collab={'mode': 'gated', 'gate_kinds': ['node_start']},
                   symptoms=sym, plans='ok', max_nodes=8 if q else 9, require_tag='node-requested-from-two-scopes', limit=30000),
-            Suite('composed', ['oneofx'], ['outcome', 'varies'], 0, ['async'] if q else ['async', 'thread'], symptoms=sym),
+            Suite('composed', COMPOSED, ['outcome', 'varies'], 0, ['async'] if q else ['async', 'thread'], symptoms=sym),
             Suite('d1', ['corpus', 'rec'] if q else GEN + ['corpus'], ['outcome', 'varies'], 1, ['async', 'thread'] if not q else ['thread'],
                   symptoms=sym, max_nodes=4 if q else 6),
         ] + ([] if q else [Suite('d2', ['corpus', 'plain', 'rec', 'oneof', 'switch'], ['outcome', 'varies'], 2, ['thread'], symptoms=sym, max_nodes=5, limit=20000)])
@@ -64,7 +65,7 @@ def suites(prop: str, tier: str) -> t.List[Suite]:
         return [
             Suite('d0-async', GEN + ['corpus', 'overlap'], ['term'], 0, ['async'], symptoms=TERM),
             Suite('d0-thread', GEN + ['corpus'], ['term'], 0, ['thread'], symptoms=TERM),
-            Suite('composed', ['oneofx'], ['term'], 0, ['async'] if q else ['async', 'thread'], symptoms=TERM, plans='std' if q else 'pairs'),
+            Suite('composed', COMPOSED, ['term'], 0, ['async'] if q else ['async', 'thread'], symptoms=TERM, plans='std' if q else 'pairs'),
             Suite('d1', ['corpus'] + ([] if q else GEN), ['term'], 1, ['thread'], symptoms=TERM, max_nodes=5 if q else 6),
             Suite('gated-collab', ['corpus', 'plain'] + ([] if q else ['oneof', 'switch', 'rec']), ['term'], 0, ['async'],
                   collab={'mode': 'gated', 'store': 'rec'}, symptoms=TERM, max_nodes=4 if q else 5),
@@ -87,7 +88,7 @@ def suites(prop: str, tier: str) -> t.List[Suite]:
                   symptoms=KW, plans='ok', max_nodes=8 if q else 9, require_tag='node-requested-from-two-scopes', limit=30000),
             Suite('shared-gated-start', ['corpus', 'switch', 'oneof'], ['kwargs'], 0, ['async'], collab={'mode': 'gated', 'gate_kinds': ['node_start']},
                   symptoms=KW, plans='ok', max_nodes=8 if q else 9, require_tag='node-requested-from-two-scopes', limit=30000),
-            Suite('composed', ['oneofx'], ['kwargs'], 0, ['async'] if q else ['async', 'thread'], symptoms=KW),
+            Suite('composed', COMPOSED, ['kwargs'], 0, ['async'] if q else ['async', 'thread'], symptoms=KW),
             Suite('d1', ['corpus', 'rec'] + ([] if q else ['plain', 'oneof', 'switch', 'mix']), ['kwargs'], 1, ['thread'], symptoms=KW, max_nodes=4 if q else 6),
         ] + ([] if q else [Suite('d2', ['corpus', 'rec', 'oneof', 'switch'], ['kwargs'], 2, ['thread'], symptoms=KW, max_nodes=5, limit=20000)])
     if prop == 'C04':
@@ -101,7 +102,7 @@ def suites(prop: str, tier: str) -> t.List[Suite]:
 
             Suite('yield-d1', ['corpus', 'switch', 'oneof'] + ([] if q else ['plain', 'rec', 'mix']), ['counts', 'kwargs'], 1, ['thread'],
                   collab={'mode': 'yield'}, symptoms=sym, max_nodes=5 if q else 6, plans='ok'),
-        ] + ([] if q else [Suite('composed', ['oneofx'], ['counts', 'kwargs'], 0, ['async'], collab={'mode': 'yield'}, symptoms=sym)]) + [
+        ] + ([] if q else [Suite('composed', COMPOSED, ['counts', 'kwargs'], 0, ['async'], collab={'mode': 'yield'}, symptoms=sym)]) + [
             Suite('gated', ['corpus'] + ([] if q else ['switch', 'oneof', 'plain']), ['counts', 'kwargs'], 0 if q else 1, ['async'],
                   collab={'mode': 'gated'}, symptoms=sym, plans='ok', max_nodes=6 if q else 5, limit=20000),
         ]
@@ -110,7 +111,7 @@ def suites(prop: str, tier: str) -> t.List[Suite]:
         return [
             Suite('d0-async', GEN + ['corpus'], ['outcome'], 0, ['async'], symptoms=sym, plans='pairs'),
             Suite('d0-thread', GEN + ['corpus'], ['outcome'], 0, ['thread'], symptoms=sym, plans='std'),
-            Suite('composed', ['oneofx'], ['outcome'], 0, ['async'] if q else ['async', 'thread'], symptoms=sym, plans='std' if q else 'pairs'),
+            Suite('composed', COMPOSED, ['outcome'], 0, ['async'] if q else ['async', 'thread'], symptoms=sym, plans='std' if q else 'pairs'),
             Suite('d1', ['corpus', 'oneof'] + ([] if q else ['plain', 'switch', 'rec', 'mix']), ['outcome'], 1, ['thread'], symptoms=sym,
                   plans='pairs', max_nodes=5 if q else 6),
         ] + ([] if q else [Suite('d2', ['corpus', 'oneof', 'plain'], ['outcome'], 2, ['thread'], symptoms=sym, plans='pairs', max_nodes=5, limit=20000)])
@@ -119,6 +120,7 @@ def suites(prop: str, tier: str) -> t.List[Suite]:
         mons = ['term', 'outcome', 'kwargs', 'counts', 'varies']
         return [
             Suite('d0-async', ['switch', 'mix', 'corpus'], mons, 0, ['async'], symptoms=sym),
+            Suite('composed', ['switchx'], mons, 0, ['async'] if q else ['async', 'thread'], symptoms=sym),
             Suite('d0-thread', ['switch', 'corpus'], mons, 0, ['thread'], symptoms=sym),
             Suite('d1', ['corpus', 'switch'], mons, 1, ['thread'], symptoms=sym, max_nodes=4 if q else 6),
         ]
@@ -136,6 +138,7 @@ def suites(prop: str, tier: str) -> t.List[Suite]:
         mons = ['term', 'outcome', 'kwargs', 'counts', 'varies']
         return [
             Suite('d0-async', ['rec', 'mix', 'corpus'], mons, 0, ['async'], symptoms=sym),
+            Suite('composed', ['recx'], mons, 0, ['async'] if q else ['async', 'thread'], symptoms=sym),
             Suite('d0-thread', ['rec', 'corpus'], mons, 0, ['thread'], symptoms=sym),
             Suite('d1', ['corpus', 'rec'], mons, 1, ['thread'], symptoms=sym, max_nodes=4 if q else 6),
         ] + ([] if q else [Suite('d2', ['corpus', 'rec'], mons, 2, ['thread'], symptoms=sym, max_nodes=4, limit=20000)])
@@ -143,7 +146,7 @@ def suites(prop: str, tier: str) -> t.List[Suite]:
         return [
             Suite('early-failure', GEN + ['corpus'], ['left'], 0, ['async'], symptoms=LEFT),
             Suite('early-failure-thread', GEN + ['corpus'], ['left'], 0, ['thread'], symptoms=LEFT),
-            Suite('composed', ['oneofx'], ['left'], 0, ['async'] if q else ['async', 'thread'], symptoms=LEFT),
+            Suite('composed', COMPOSED, ['left'], 0, ['async'] if q else ['async', 'thread'], symptoms=LEFT),
             Suite('cancel-every-step', ['corpus', 'plain'] + ([] if q else ['oneof', 'switch', 'rec']), ['left', 'cancel'], 0, ['async', 'thread'],
                   symptoms=LEFT, plans='cancel', max_nodes=8 if q else 8),
             Suite('cancel-gated-collab', ['corpus', 'plain'], ['left', 'cancel'], 0, ['async'], collab={'mode': 'gated', 'store': 'rec'},
@@ -166,7 +169,7 @@ def suites(prop: str, tier: str) -> t.List[Suite]:
                   symptoms=None, plans='ok', max_nodes=8 if q else 9, require_tag='node-requested-from-two-scopes', limit=30000),
 
             Suite('yield', GEN + ['corpus'], ['events'], 0, ['thread'], collab={'mode': 'yield', 'two_managers': True}, symptoms=None),
-        ] + ([] if q else [Suite('composed', ['oneofx'], ['events'], 0, ['async'], symptoms=None)]) + [
+        ] + ([] if q else [Suite('composed', COMPOSED, ['events'], 0, ['async'], symptoms=None)]) + [
             Suite('gated', ['corpus', 'plain'] + ([] if q else ['oneof', 'switch', 'rec']), ['events'], 0, ['async'],
                   collab={'mode': 'gated', 'two_managers': not q}, symptoms=None, max_nodes=4, limit=20000),
             Suite('d1', ['corpus'] + ([] if q else ['plain', 'rec', 'oneof']), ['events'], 1, ['thread'], collab={'mode': 'yield'},
@@ -177,7 +180,7 @@ def suites(prop: str, tier: str) -> t.List[Suite]:
         return [
             Suite('once-d0', GEN + ['corpus'], ['saves', 'outcome'], 0, ['async'], collab={'store': 'once'}, symptoms=sym),
             Suite('once-d0-thread', GEN + ['corpus'], ['saves', 'outcome'], 0, ['thread'], collab={'store': 'once'}, symptoms=sym),
-        ] + ([] if q else [Suite('composed', ['oneofx'], ['saves', 'outcome'], 0, ['async'], collab={'store': 'once'}, symptoms=sym)]) + [
+        ] + ([] if q else [Suite('composed', COMPOSED, ['saves', 'outcome'], 0, ['async'], collab={'store': 'once'}, symptoms=sym)]) + [
             Suite('once-gated-save', ['corpus', 'plain', 'switch'], ['saves', 'outcome'], 0, ['async'],
                   collab={'store': 'once', 'save_mode': 'gated'}, symptoms=sym, plans='ok', max_nodes=5 if q else 6, limit=20000),
             Suite('once-d1', ['corpus', 'switch'] + ([] if q else ['plain', 'oneof', 'rec']), ['saves', 'outcome'], 1, ['thread'],
@@ -288,7 +291,7 @@ def run(prop: str, tier: str, seed: int) -> dict:
                     continue
                 if NEED_KIND.get(prop) and NEED_KIND[prop] not in S.kinds_used(spec):
                     continue
-                nch = 6 if fam == 'oneofx' else 1
+                nch = 6 if fam in COMPOSED else 1
                 for c in range(nch):
                     items.append((prop, tier, si, fam, spec, (c, nch)))
                 progs.add(S.spec_hash(spec))
